@@ -1,6 +1,6 @@
 (* pqref commands of the dataset models (C19, C18, C07, C09). *)
 From Coq Require Import NArith ZArith List String Bool.
-From Pq Require Import Base.Bytes Impl.KV Dataset.FS Dataset.FsPaths Dataset.Crash Dataset.Append Dataset.Ops Dataset.CatRead Extract.Sx.
+From Pq Require Import Base.Bytes Impl.KV Dataset.FS Dataset.FsPaths Dataset.Crash Dataset.CrashGen Dataset.Append Dataset.Ops Dataset.CatRead Extract.Sx.
 Import ListNotations.
 Open Scope string_scope.
 
@@ -36,6 +36,16 @@ Definition h_safe_trace_sym (a : list sx) : sx :=
   | [refs; tr] =>
     match as_list_of as_bytes refs, as_list_of as_call tr with
     | Some refs, Some tr => sbool (check_safe_trace_sym refs tr)
+    | _, _ => err "args"
+    end
+  | _ => err "arity"
+  end.
+
+Definition h_safe_trace_gen (a : list sx) : sx :=
+  match a with
+  | [refs; tr] =>
+    match as_list_of as_bytes refs, as_list_of as_call tr with
+    | Some refs, Some tr => sbool (check_safe_gen refs tr)
     | _, _ => err "args"
     end
   | _ => err "arity"
@@ -135,4 +145,4 @@ Definition h_append_rel (a : list sx) : sx :=
 Definition table : list (string * handler) :=
   [("safe_trace", h_safe_trace); ("no_write", h_no_write); ("fs_run", h_fs_run);
    ("append_seq", h_append_seq); ("part_id", h_part_id); ("find_max_part", h_find_max_part);
-   ("append_trace", h_append_trace); ("read_cat", h_read_cat); ("append_rel", h_append_rel); ("safe_trace_sym", h_safe_trace_sym)].
+   ("append_trace", h_append_trace); ("read_cat", h_read_cat); ("append_rel", h_append_rel); ("safe_trace_sym", h_safe_trace_sym); ("safe_trace_gen", h_safe_trace_gen)].
